@@ -9,7 +9,8 @@ raises), root fields `after`; item sub-fields sync / deferred / nested, ok / Res
 the manual executor (ThreadPoolRuntime, generic Executor) the model's orphan semantics must predict status, data, the error
 multiset, the queue sizes and the call/done trace; BlockingExecutor likewise (kind="correspondence").
 The property verdict itself (errors differ from BlockingExecutor's for some schedule) is the known finding E2 and is
-reported once under its stable signature `<prop>:errors:threadpool:completion-raises-after-sub-resolvers`.
+reported once under its stable signature `<prop>:errors-differ:threadpool:completion-raises-after-sub-resolvers`; the mutation
+half of the block (the failing list field FIRST, `execute_fields_serially`, model `E2.executeSerial`) also ties the C09 witness.
 """
 import itertools
 import json
@@ -45,6 +46,11 @@ def cases(tier="quick"):
         fld = {"key": "q1", "mode": "sync", "ty": ty, "out": {"r": "ok", "v": v}}
         case = {"kind": "query", "fields": befores[bi] + [fld] + afters[ai]}
         out.append((case, len(befores[bi]), n_items))
+        if bi == 0:
+            # the same as a MUTATION (execute_fields_serially; model: E2.executeSerial): the failing list field first
+            mfld = dict(fld, key="m1")
+            mafter = [dict(f, key="m2") for f in afters[ai]]
+            out.append(({"kind": "mutation", "fields": [mfld] + mafter}, 0, n_items))
     return out
 
 
@@ -56,7 +62,7 @@ def to_e2(case, idx, n_items):
     ok_ty = dict(f["ty"], of={k: v for k, v in f["ty"]["of"].items() if k != "abstract"})
     probe = {"kind": "query", "fields": [{"key": f["key"], "mode": "sync", "ty": ok_ty, "out": {"r": "ok", "v": items}}]}
     comps = W.to_model(probe)["fields"][0]["out"]["c"]["items"]
-    sides = W.to_model({"kind": "query", "fields": case["fields"][:idx] + case["fields"][idx + 1:]})
+    sides = W.to_model({"kind": case["kind"], "fields": case["fields"][:idx] + case["fields"][idx + 1:]})
     assert not sides.get("nomodel")
     return {"before": sides["fields"][:idx], "key": f["key"], "items": comps, "after": sides["fields"][idx:]}
 
@@ -87,13 +93,15 @@ def answer_view(ans, with_sched):
     return v
 
 
-def e2_stage(ctx, prop="C08", only=None, cap=130):
+def e2_stage(ctx, prop="C08", only=None, cap=130, kinds=("query", "mutation")):
     todo = []       # (request, expected view, detail)
     lost = kept = 0
     verdict_reported = False
     n_cases = 0
     for case, idx, n_items in cases(ctx.tier):
         if only is not None and dumps(case) != dumps(only):
+            continue
+        if case["kind"] not in kinds:
             continue
         if ctx.time_left() < 8:
             ctx.notes.append("e2-model stage cut by the time budget after %d cases" % n_cases)
@@ -109,8 +117,22 @@ def e2_stage(ctx, prop="C08", only=None, cap=130):
             ctx.nontrivial(("e2", dumps(e2), tuple(obs["choices"])))
             if obs["status"] == "hang":
                 continue            # never completes: reported by the streams of C08 (watchdog), not here
-            todo.append(({"op": "e2-async", "case": e2, "schedule": obs["choices"]}, view(obs, True),
+            todo.append(({"op": "e2-serial-async" if case["kind"] == "mutation" else "e2-async", "case": e2, "schedule": obs["choices"]}, view(obs, True),
                          dict(detail, config="threadpool", schedule=obs["choices"]), True))
+            if prop == "C09" and case["kind"] == "mutation" and obs["status"] in ("ok", "failed"):
+                # C09's own verdict (the statement of serial_order on the real trace): the known finding E2, reported once
+                bad = W.serial_violation(case, obs)
+                if bad:
+                    lost += 1
+                    if not verdict_reported:
+                        verdict_reported = True
+                        ctx.fail("c09:not-serial:threadpool:completion-raises-after-sub-resolvers",
+                                 "first mutation field fails while its list is completed after an earlier item's sub-resolver was started: %s "
+                                 "(schedule %s)" % (bad, obs["choices"]),
+                                 dict(detail, config="threadpool", schedule=obs["choices"], what="not-serial"))
+                else:
+                    kept += 1
+                continue
             if obs["status"] == "ok" and ref["status"] == "ok":
                 same = sorted(obs["errors"], key=dumps) == sorted(ref["errors"], key=dumps) and dumps(obs["data"]) == dumps(ref["data"])
                 if same:
@@ -119,7 +141,7 @@ def e2_stage(ctx, prop="C08", only=None, cap=130):
                     lost += 1
                     if not verdict_reported:
                         verdict_reported = True
-                        ctx.fail("%s:errors:threadpool:completion-raises-after-sub-resolvers" % prop.lower(),
+                        ctx.fail("%s:errors-differ:threadpool:completion-raises-after-sub-resolvers" % prop.lower(),
                                  "list field fails while being completed after earlier items' sub-resolvers were started: the generic "
                                  "Executor on the thread pool reports errors %s, BlockingExecutor %s (schedule %s)"
                                  % (obs["errors"], ref["errors"], obs["choices"]),
